@@ -46,7 +46,8 @@ def gen_case(ctx, stream, idx):
                                 all_defaults=True, with_return=False)
     if stream == "core":
         # (every 16th interface has no parameter at all: an empty signature is legal and every format can say it)
-        return irgen.rand_ir(r, nparams=0 if idx % 16 == 3 else r.randint(1, 5), type_kinds=CORE_T, default_kinds=CORE_D,
+        # (str defaults include delimiter characters, a lone quote character, a directive: kind strodd)
+        return irgen.rand_ir(r, nparams=0 if idx % 16 == 3 else r.randint(1, 5), type_kinds=CORE_T, default_kinds=CORE_D + ("strodd",),
                              all_defaults=True, with_return=False, doc_kinds=("plain", "plain", "punct"))
     # probe: required parameters, and str defaults with a double quote / backslash / backtick (which the docstring hop
     # cannot carry - a recorded finding - but every other hop must)
